@@ -66,9 +66,23 @@ type lossCase struct {
 	Target *ref.T `json:"target"`
 }
 
+var lossObjCalls int
+
+// lossObj returns a loss object: from the constructor, or (every third call) the zero value of the exported struct.
 func lossObj(kind string) interface {
 	Compute(tensor.Tensor, tensor.Tensor) (tensor.Tensor, error)
 } {
+	lossObjCalls++
+	if lossObjCalls%3 == 0 {
+		switch kind {
+		case "mse":
+			return &losses.MSE{}
+		case "bce":
+			return new(losses.BCE)
+		}
+		var ce losses.CE
+		return &ce
+	}
 	switch kind {
 	case "mse":
 		return losses.NewMSE()
